@@ -109,6 +109,52 @@ pub fn base_cases(cfg: &Cfg, isn: u32, xid: u32) -> Vec<(&'static str, Vec<u8>)>
     v.push(("tcp-syn-to-listener", build_ip(peer, me, 6, &build_tcp(peer, me, PEER_PORT + 1, TCP_LISTEN, 0x2000_0000, 0, SYN, 512, &[2, 4, 2, 0], &[]))));
     v.push(("tcp-syn-to-closed-port", build_ip(peer, me, 6, &build_tcp(peer, me, PEER_PORT + 2, 99, 0x3000_0000, 0, SYN, 512, &[], &[]))));
     v.push(("tcp-data-to-established", build_ip(peer, me, 6, &build_tcp(peer, me, PEER_PORT, TCP_X, PEER_ISN.wrapping_add(1), isn.wrapping_add(1), ACK | PSH, 1024, &[], &d11))));
+    // Boundary values of the checksum field itself. For TCP 0x0000 is an ordinary value (the
+    // one's-complement sum of everything else is 0xffff); a payload word is tuned so that the
+    // CORRECT checksum is exactly 0x0000. The same segment with 0xffff in the field also verifies
+    // arithmetically (0xffff is the other representation of zero). Every corruption outside the
+    // field leaves the field at 0x0000 / 0xffff and must be dropped.
+    {
+        let mut pl: Vec<u8> = (0..12u8).map(|i| 0x51 + i).collect();
+        pl[4] = 0;
+        pl[5] = 0;
+        let mut seg = build_tcp(peer, me, PEER_PORT, TCP_X, PEER_ISN.wrapping_add(1), isn.wrapping_add(1), ACK | PSH, 1024, &[], &pl);
+        seg[16] = 0;
+        seg[17] = 0;
+        let s = fold(pseudo_words(peer, me, 6, seg.len() as u32) + words(&seg));
+        let w = !s;
+        seg[24] = (w >> 8) as u8;
+        seg[25] = w as u8;
+        v.push(("tcp-data-true-checksum-0000", build_ip(peer, me, 6, &seg)));
+        seg[16] = 0xff;
+        seg[17] = 0xff;
+        v.push(("tcp-data-checksum-field-ffff", build_ip(peer, me, 6, &seg)));
+        // SYN to the listener whose correct checksum is 0x0000 (low half of the sequence number tuned)
+        let mut syn = build_tcp(peer, me, PEER_PORT + 3, TCP_LISTEN, 0x2000_0000, 0, SYN, 512, &[2, 4, 2, 0], &[]);
+        syn[16] = 0;
+        syn[17] = 0;
+        syn[6] = 0;
+        syn[7] = 0;
+        let s = fold(pseudo_words(peer, me, 6, syn.len() as u32) + words(&syn));
+        let w = !s;
+        syn[6] = (w >> 8) as u8;
+        syn[7] = w as u8;
+        v.push(("tcp-syn-true-checksum-0000", build_ip(peer, me, 6, &syn)));
+        // UDP datagram whose computed checksum is 0x0000 and which is therefore sent as 0xffff
+        let mut upl: Vec<u8> = (0..10u8).map(|i| 0x71 + i).collect();
+        upl[0] = 0;
+        upl[1] = 0;
+        let mut useg = build_udp(peer, me, PEER_PORT, UDP_PORT, &upl);
+        useg[6] = 0;
+        useg[7] = 0;
+        let s = fold(pseudo_words(peer, me, 17, useg.len() as u32) + words(&useg));
+        let w = !s;
+        useg[8] = (w >> 8) as u8;
+        useg[9] = w as u8;
+        useg[6] = 0xff;
+        useg[7] = 0xff;
+        v.push(("udp-computed-checksum-0000-sent-as-ffff", build_ip(peer, me, 17, &useg)));
+    }
     v.push(("ip-unknown-protocol", build_ip(peer, me, 253, &d8)));
     v
 }
